@@ -178,6 +178,13 @@ def run(ctx):
                     reported += 1
         if len(samples) < 3 and printed:
             samples.append({"grammar": r.text, "gocc": r.gocc_out.split("\n")[0], "exit": r.rc, "exit_with_-a": ra.rc})
+    gen_bad = []
+    for r, ra in usable:
+        gc = lrcommon.gen_compare(ctx, r)
+        if gc is not None:
+            gen_bad.append("%s: %s" % (r.name, gc))
+    ctx.add_obligation("K: model generator (LR/Gen.v; succeeds iff no canonical LR(1) conflict: C02_generator_succeeds_iff_LR1) = gocc on %d "
+                       "grammars (automaton, conflict-state count)" % len(usable), not gen_bad, "; ".join(gen_bad[:2])[:600])
     ctx.add_obligation("R: auto_valid = true and gocc_reports = announced count (by vm_compute) for %d dumped automata" % len(usable),
                        not bad_obl, "; ".join(bad_obl[:3]))
     for o in ctx.failed_obligations():
